@@ -17,6 +17,7 @@ APPEND = {
     "find_abstractions.rs": "src/datetime/find.rs",
     "std_specs.rs": "src/utils/const_fns.rs",
     "parse_tz_file.rs": "src/parse/tz_file.rs",
+    "parse_abstractions.rs": "src/parse/tz_file.rs",
     "rule.rs": "src/timezone/rule.rs",
 }
 
